@@ -86,7 +86,8 @@ def build_LU0(m, n, kind, seed, tag):
                     u = G.SIGNED_UNITS[(3 * i + 1) % 8].astype(float)
                     U0[i, j] = u * [1.0, 2.0, 0.5, 4.0, 1.0][i % 5]
                     if kind in ("mixed", "fill"):
-                        U0[i, j, (i + 2) % 4] += 1.0  # two-component pivot, |.|^2 not a power of 2
+                        ax = int(np.flatnonzero(u)[0])
+                        U0[i, j, (ax + 1) % 4] += 1.0  # two-component pivot (never cancels the unit), |.|^2 not a power of 2
             else:
                 U0[i, j] = fill.dyadic((4,), bits=2, lo=-8, hi=8)
     return L0, U0
